@@ -299,6 +299,9 @@ class Python312InstrumentationInstructionsGenerator(
         lineno: int | _UNSET | None,
     ) -> tuple[cf.ArtificialInstr, ...]:
         match arg:
+            case InstrumentationFastLoad(name):
+                # LOAD_FAST does not check whether the local variable is bound anymore
+                return (cf.ArtificialInstr("LOAD_FAST_CHECK", name, lineno=lineno),)
             case InstrumentationClassDeref(name):
                 return (
                     cf.ArtificialInstr("LOAD_LOCALS", lineno=lineno),
@@ -388,6 +391,42 @@ class CheckedCoverageInstrumentation(python3_11.CheckedCoverageInstrumentation):
     def should_instrument_line(self, instr: Instr, lineno: int | _UNSET | None) -> bool:  # noqa: D102
         return super().should_instrument_line(instr, lineno) and instr.name != "END_FOR"
 
+    @staticmethod
+    def _is_unbound_allowed(cfg: cf.CFG, node: cf.BasicBlockNode, instr: Instr) -> bool:
+        """Whether the local variable may be unbound where the instruction is traced.
+
+        An inlined comprehension saves the variables it hides with LOAD_FAST_AND_CLEAR
+        and restores them (after a SWAP) with STORE_FAST, whether they are bound or not.
+
+        Args:
+            cfg: The control flow graph of the code object
+            node: The node that contains the instruction
+            instr: The instruction that accesses the local variable
+
+        Returns:
+            Whether the value of the local variable must not be read
+        """
+        if instr.name == "LOAD_FAST_AND_CLEAR":
+            return True
+        if instr.name != "STORE_FAST":
+            return False
+        previous_instr = None
+        for original_instr in node.original_instructions:
+            if original_instr is instr:
+                break
+            previous_instr = original_instr
+        return (
+            previous_instr is not None
+            and previous_instr.name == "SWAP"
+            and any(
+                isinstance(other, Instr)
+                and other.name == "LOAD_FAST_AND_CLEAR"
+                and other.arg == instr.arg
+                for block in cfg.bytecode_cfg
+                for other in block
+            )
+        )
+
     def visit_local_access(  # noqa: D102, PLR0917
         self,
         ast_info: transformer.AstInfo | None,
@@ -411,7 +450,9 @@ class CheckedCoverageInstrumentation(python3_11.CheckedCoverageInstrumentation):
                     InstrumentationConstantLoad(value=instr.lineno),
                     InstrumentationConstantLoad(value=instr_original_index),
                     InstrumentationConstantLoad(value=instr.arg),  # type: ignore[arg-type]
-                    InstrumentationFastLoad(name=instr.arg),  # type: ignore[arg-type]
+                    InstrumentationConstantLoad(value=None)
+                    if self._is_unbound_allowed(cfg, node, instr)
+                    else InstrumentationFastLoad(name=instr.arg),  # type: ignore[arg-type]
                 ),
             ),
             instr.lineno,
